@@ -8,6 +8,7 @@
 //   aopt <layer> <code> x<data> add_option(option(code, data))     -> "P 1 <view>"
 //   ropt <layer> <code>         remove_option(code)                 -> "P 0|1 <view>"
 //   sopt <layer> <code>         search_option(code)                 -> "O 0" | "O 1 x<data>"
+//   ext6 <layer> <type> x<data> IPv6::add_header(ext_header(type, data))
 //   icmpext <layer> x<data>     add an RFC 4884 extension object to an ICMP/ICMPv6 layer
 //   val <layer> <field> <value> the printed form of the argument set would pass -> "V <value>"
 //   ser                         size() + serialize()                   -> "S <size> x<bytes> [M <type> <what> <offset>]*"  (M = hook H1 reports)
@@ -129,6 +130,13 @@ static void run(const Script& s) {
                 if (r < 0) { printf("N\n"); continue; }
                 if (op == "sopt") printf("O %d %s\n", r, found.c_str());
                 else printf("P %d %s\n", r, vacc::describe(*pkt).c_str());
+            } else if (op == "ext6" && pkt) {
+                // IPv6::add_header(ext_header(type, data))
+                IPv6* l = dynamic_cast<IPv6*>(layer_at(pkt.get(), (int)num(t[1])));
+                if (!l) { printf("N\n"); continue; }
+                bytes d = unhex(t[3]);
+                l->add_header(IPv6::ext_header((uint8_t)num(t[2]), d.begin(), d.end()));
+                printf("P %s\n", vacc::describe(*pkt).c_str());
             } else if (op == "icmpext" && pkt) {
                 // add an RFC 4884 extension object (class 1, type 1) to an ICMP / ICMPv6 layer
                 PDU* l = layer_at(pkt.get(), (int)num(t[1]));
